@@ -3,6 +3,7 @@
    Print Assumptions.  GENERATED skeleton (tools/mkprops.py), statements are the ones Coq prints for the lemmas. *)
 From Coq Require Import ZArith Reals List Bool String.
 From VQ Require Import Num Model.Vec Model.Losses Proofs.LossProofs Glue.LossGlue Glue.Pin_p_losses.
+From VQ Require Import Proofs.StretchJensen.
 Import ListNotations.
 Open Scope R_scope.
 
@@ -100,11 +101,26 @@ Theorem C17_tie_loss_assembly :
   p_losses.p_losses = pinned_p_losses.
 Proof. exact (@pin_p_losses). Qed.
 Print Assumptions C17_tie_loss_assembly.
-(* Full statement kept visible but NOT asserted (only the two-token / unclamped-region case is proved above, see
-   C17_per_token_entropy_le_batch_entropy_partial): for any m token distributions p_1..p_m over K codes,
-     0 <= mean_i H(p_i) <= H(mean_i p_i) <= ln K      with H the eps-clamped entropy.
-   What is missing: m-point Jensen for the clamped term (linear below eps) ; the correspondence checks the inequality
-   on every recorded LFQ call. *)
+
+Theorem C17_entropy_term_jensen :
+  forall ts : list R,
+       ts <> [] ->
+       Forall (fun t : R => 0 < t) ts ->
+       rmean (map (fun t : R => - t * ln t) ts) <= - rmean ts * ln (rmean ts).
+Proof. exact (@entropy_term_jensen). Qed.
+Print Assumptions C17_entropy_term_jensen.
+
+Theorem C17_per_token_entropy_le_batch_entropy :
+  forall (eps : R) (K : nat) (ps : list (list R)),
+       0 < eps ->
+       ps <> [] -> dists_ok eps K ps -> rmean (map (centropy eps) ps) <= centropy eps (mean_dist ps).
+Proof. exact (@per_token_entropy_le_batch_entropy). Qed.
+Print Assumptions C17_per_token_entropy_le_batch_entropy.
+(* Full statement kept visible but NOT asserted: the chain  0 <= mean_i H(p_i) <= H(mean_i p_i) <= ln K  for ANY token
+   distributions, including entries below the clamp eps.  Proved above: every link for distributions whose entries are
+   >= eps (C17_entropy_nonneg, C17_per_token_entropy_le_batch_entropy for any number of tokens, C17_entropy_at_most_log_codebook_size).
+   What is missing: the clamped region (the entropy term is linear below eps, so the function is still concave, but that
+   case analysis is not mechanised); the correspondence checks the chain on every recorded LFQ call. *)
 Definition C17_entropy_chain_full_statement : Prop :=
   forall (eps : R) (ps : list (list R)), 0 < eps <= 1 -> ps <> [] -> Forall is_dist ps ->
     0 <= rmean (map (centropy eps) ps) /\ rmean (map (centropy eps) ps) <= centropy eps (mean_dist ps) /\
